@@ -2,10 +2,13 @@
 
 spec : SqliteModel.tla + EngineTrace.tla (UndoRestores: Plan.Reversible => executing the reverse statements of the changes in reverse order
        gives back the start state; DownFailed), PlanFile.tla / PlanFileTrace.tla (down file = flattened reversed reverse statements;
-       Reversible <=> every change has reverse statements), PlanCatalogTrace.tla (catalogue-level up/down for MySQL / PostgreSQL)
+       Reversible <=> every change has reverse statements), PlanCatalogTrace.tla / ColCatalogTrace.tla (catalogue-level up/down for MySQL / PostgreSQL:
+       tables, foreign keys with their actions, checks; the columns of a table)
 bind : S->C on SQLite (the C01 pairs: up, then down, independent projection = start state); all three dialects x six formatters for the
        down-file and Reversible-flag consistency (the C07 round-trip corpus); MySQL / PostgreSQL planners' up+down statement lists for every
-       FK-graph scenario over <= 3 tables replayed through the catalogue model (reported separately as coverage.catalog_updown).
+       FK-graph scenario over <= 3 tables, every CHECK-constraint change list and every ordered pair of definitions of a foreign key
+       modified in place (referenced table, actions) replayed through the catalogue model, every ordered pair of 24 definitions of
+       one column (3 types x nullability x default / generation expression) through the column model (coverage.catalog_updown).
 """
 import json
 import os
@@ -46,15 +49,15 @@ def run(tier):
         vf.rm(r.dir)
     # catalogue-level up/down for MySQL / PostgreSQL
     cat = {"plans": 0, "bad": 0}
-    for args in (["-checks"], ["-n", "2", "-roles", "all", "-updown"], ["-n", "3", "-roles", "all", "-updown"] + (["-sample", "0.2"] if tier == "quick" else [])):
+    for args in (["-checks"], ["-fkmod"], ["-n", "2", "-roles", "all", "-updown"], ["-n", "3", "-roles", "all", "-updown"] + (["-sample", "0.2"] if tier == "quick" else [])):
         dd, tr, cases, _ = plancat.record(args)
         try:
             per, ev = plancat.validate(tr)
             byid = {c["id"]: c for c in cases}
-            cat["plans"] += sum(1 for c in cases if c["dir"] in ("updown", "checks-updown"))
+            cat["plans"] += sum(1 for c in cases if c["dir"] in ("updown", "checks-updown", "fkmod-updown"))
             for cid, names in sorted(per.items()):
                 c = byid[cid]
-                if c["dir"] not in ("updown", "checks-updown"):
+                if c["dir"] not in ("updown", "checks-updown", "fkmod-updown"):
                     continue
                 cat["bad"] += 1
                 case = plancat.shape(c) if c["dir"] == "updown" else {"dialect": c["dialect"], "scenario": c["roles"], "dir": c["dir"]}
@@ -62,6 +65,11 @@ def run(tier):
                 v.violation(case, {"violated": names, "statements": c.get("stmts")})
         finally:
             vf.rm(dd)
+    # column level: one column modified in place (type, nullability, default, generation expression), differ -> planner -> clauses
+    colcat = plancat.colmod(v, "colmod-updown", "catalog-colmod-updown")
+    cat["plans"] += colcat["planned"]
+    cat["bad"] += colcat["bad"]
+    cat["column_level"] = colcat
     viols, full, n, info = fut.result()
     pool.shutdown()
     bad = engine.report(v, viols, full, NAMES)
@@ -72,5 +80,5 @@ def run(tier):
                      "downfile: one observation per (plan, formatter); catalog: MySQL/PostgreSQL up+down statement lists of FK-graph scenarios",
              "engine_pairs": n, "engine_reversible_plans": nrev, "inline_unique_desired_updown": info.get("inline_desired_updown", 0), "downfile_observations": fevents, "catalog_updown": cat}
     v.samples = [{"edit": engine.diffstate(o["from"], o["to"]), "up": o.get("stmts"), "down": o.get("down")} for o in full if o["reversible"] and o.get("down")][:1]
-    v.assumptions = ["rows lost by a down migration (re-added columns) are not part of C17; only the schema is compared", "MySQL / PostgreSQL have no engine here: catalogue level only (tables and live foreign keys)"]
+    v.assumptions = ["rows lost by a down migration (re-added columns) are not part of C17; only the schema is compared", "MySQL / PostgreSQL have no engine here: catalogue level only (tables, live foreign keys with their actions, checks, non-empty index key lists)"]
     return v.finish()
